@@ -1689,3 +1689,9 @@ mod tests {
         );
     }
 }
+
+// Verification hook (inactive unless compiled by the Kani verifier): pulls the
+// proof harnesses for this module in from the directory named by
+// DATAFUSION_VERIF_DIR so that they can reach private items.
+#[cfg(kani)]
+include!(concat!(env!("DATAFUSION_VERIF_DIR"), "/kani/expr_common/casts.rs"));
